@@ -36,6 +36,12 @@ func (a *vmHTTPApp) serve(rq *vmReq) (status int, escaped bool) {
 	rec := httptest.NewRecorder()
 	req := httptest.NewRequest(http.MethodGet, "/"+rq.down, nil)
 	req = req.WithContext(rq.ctx(req.Context()))
+	callerCtx := req.Context()
+	defer func() {
+		if req.Context() != callerCtx {
+			rq.reqChanged = true
+		}
+	}()
 	func() {
 		defer func() {
 			if v := recover(); v != nil {
